@@ -108,6 +108,8 @@ pub trait Codec: 'static {
     fn norm(e: &Self::Err) -> NErr;
     fn parts(p: &Self::Packet) -> Vec<Part<'_>>;
     fn to_io(e: Self::Err) -> Option<io::Error>;
+    /// C12: violated type invariants of a decoded packet (empty = fine)
+    fn invariants(p: &Self::Packet) -> Vec<String>;
 }
 
 pub struct V3;
@@ -186,6 +188,9 @@ impl Codec for V3 {
     }
     fn to_io(e: Self::Err) -> Option<io::Error> {
         Some(e.into())
+    }
+    fn invariants(p: &v3::Packet) -> Vec<String> {
+        crate::inv::v3(p)
     }
 }
 
@@ -309,5 +314,8 @@ impl Codec for V5 {
     fn to_io(_e: Self::Err) -> Option<io::Error> {
         // ErrorV5 has no conversion to io::Error in the public API
         None
+    }
+    fn invariants(p: &v5::Packet) -> Vec<String> {
+        crate::inv::v5(p)
     }
 }
